@@ -22,9 +22,10 @@ P = "C10"
 NS = 10**9
 
 ASSUMPTIONS = [
-    "window sizes are decimal values that are whole nanoseconds (1.0, 0.5, 0.1, 0.3, 0.57, 0.001, 0.7, 0.05, 2.5, 0.25) so "
-    "that 'aligned window' and 'window length' have one exact integer-ns meaning (round(W*1e9)); rates are from "
-    "{1, 2, 0.5, 3, 7, 10, 1000, 8, 100} per second",
+    "window sizes are decimal values that are whole nanoseconds (1.0, 0.5, 0.1, 0.3, 0.57, 0.001, 0.7, 0.05, 2.5, 0.25 and, above "
+    "one second, 1.7, 2.05, 3.3, 4.1, 8.2, 16.4 - for four of these int(W*1e9) is 1 ns below round(W*1e9)) so that 'aligned "
+    "window' and 'window length' have one exact integer-ns meaning (round(W*1e9)); rates are from "
+    "{1, 2, 0.5, 3, 7, 10, 1000, 8, 100, 1/4.1, 1/3.3, 0.3, 1/8.2} per second",
     "comparisons that go through the library's float seconds get a 1 ns tolerance: leaky spacing >= 1e9/rate - 1 ns, sliding "
     "N+1 admits span >= W - 1 ns; token/adaptive bucket bounds get +1e-6 tokens for accumulated float rounding; fixed-window "
     "clauses are judged exactly in integer ns",
@@ -43,9 +44,12 @@ ASSUMPTIONS = [
 ]
 
 POLICIES = ["token", "leaky", "sliding", "fixed", "adaptive"]
-W_TABLE = [1.0, 0.5, 0.1, 0.3, 0.57, 0.001, 0.7, 0.05, 2.5, 0.25]
+W_TABLE = [1.0, 0.5, 0.1, 0.3, 0.57, 0.001, 0.7, 0.05, 2.5, 0.25,
+           1.7, 2.05, 3.3, 4.1, 8.2, 16.4]      # > 1 s: int(W*1e9) truncates below round(W*1e9) for 2.05, 4.1, 8.2, 16.4
+W_IDX = list(range(10)) + [10, 11, 12, 13, 14, 15] * 2      # sampling weights: the values above one second twice
 DYADIC_W = [1.0, 0.5, 0.25, 2.0]
-RATE_TABLE = [1.0, 2.0, 0.5, 3.0, 7.0, 10.0, 1000.0, 8.0, 100.0]
+RATE_TABLE = [1.0, 2.0, 0.5, 3.0, 7.0, 10.0, 1000.0, 8.0, 100.0, 1 / 4.1, 1 / 3.3, 0.3, 1 / 8.2]
+R_IDX = list(range(9)) + [9, 10, 11, 12] * 2
 DEC_TABLE = [0.5, 0.9, 0.1, 0.75]
 STEP_TABLE = [None, 1.0, 0.5, 5.0, 100.0]
 LAT_TABLE = [0.0, 0.001, 1 / 512, 0.005, 0.05]
@@ -247,14 +251,14 @@ def policy_strategy(kind):
         ).map(list)
         pc = {"k": st.just(k)}
         if kind == "token":
-            pc.update(cap=st.sampled_from([1, 1, 2, 2, 3, 5, 10]), r=st.integers(0, len(RATE_TABLE) - 1),
+            pc.update(cap=st.sampled_from([1, 1, 2, 2, 3, 5, 10]), r=st.sampled_from(R_IDX),
                       init=st.none() | st.integers(0, 10))
         elif kind == "leaky":
-            pc.update(r=st.integers(0, len(RATE_TABLE) - 1))
+            pc.update(r=st.sampled_from(R_IDX))
         elif kind in ("sliding", "fixed"):
-            pc.update(w=st.integers(0, len(W_TABLE) - 1), n=st.sampled_from([1, 1, 2, 2, 3, 5]))
+            pc.update(w=st.sampled_from(W_IDX), n=st.sampled_from([1, 1, 2, 2, 3, 5]))
         else:
-            pc.update(w=st.sampled_from([0, 0, 1, 2, 9]), mn=st.integers(0, 3), mx=st.integers(0, 4), ir=st.integers(0, 4),
+            pc.update(w=st.sampled_from([0, 0, 1, 2, 9, 10, 11, 13]), mn=st.integers(0, 3), mx=st.integers(0, 4), ir=st.integers(0, 4),
                       st=st.integers(0, len(STEP_TABLE) - 1), de=st.integers(0, len(DEC_TABLE) - 1))
         return st.fixed_dictionaries({"pol": st.fixed_dictionaries(pc), "start": st.integers(0, 12).map(lambda k: 4 * k) | st.integers(0, 48),
                                       "ops": st.lists(step, min_size=6, max_size=120 if big else 60)})
@@ -450,8 +454,8 @@ def entity_strategy(safe):
     def s(tier):
         big = tier == "thorough"
         pc = st.fixed_dictionaries({
-            "k": st.integers(0, 4), "cap": st.integers(1, 4), "r": st.integers(0, len(RATE_TABLE) - 1),
-            "init": st.none() | st.integers(0, 3), "w": st.integers(0, len(W_TABLE) - 1), "n": st.integers(1, 3),
+            "k": st.integers(0, 4), "cap": st.integers(1, 4), "r": st.sampled_from(R_IDX),
+            "init": st.none() | st.integers(0, 3), "w": st.sampled_from(W_IDX), "n": st.integers(1, 3),
             "mn": st.integers(0, 3), "mx": st.integers(0, 4), "ir": st.integers(0, 4), "st": st.just(0), "de": st.just(0)})
         if safe:
             arr = st.lists(st.integers(1, 7), min_size=1, max_size=6 if big else 4)
@@ -607,7 +611,7 @@ def distributed_strategy(tier):
                              st.sampled_from([0] * 40 + [1, 1000000, 20000000]), st.integers(0, 2)).map(list),
                    min_size=3, max_size=40 if big else 20)
     return st.fixed_dictionaries({"n": st.sampled_from([1, 1, 2, 3]), "limit": st.sampled_from([1, 1, 2, 3, 5]),
-                                  "w": st.integers(0, len(W_TABLE) - 1),
+                                  "w": st.sampled_from(W_IDX),
                                   "rl": st.sampled_from([0, 0, 1, 2, 3, 4]), "wl": st.sampled_from([0, 0, 1, 2, 3, 4]),
                                   "thr": st.integers(0, len(THR_TABLE) - 1), "arr": arr, "driver": st.booleans(),
                                   "serial": st.booleans(),
